@@ -14,5 +14,6 @@ if ! cmp -s "$tmp" _CoqProject; then mv "$tmp" _CoqProject; else rm -f "$tmp"; f
 if [ ! -f Makefile ] || [ _CoqProject -nt Makefile ] || ! grep -q "theories" Makefile.conf 2>/dev/null; then
   mk=$(mktemp ./Makefile.XXXXXX)
   coq_makefile -f _CoqProject -o "$mk" >/dev/null && mv "$mk" Makefile && mv "$mk.conf" Makefile.conf
+  rm -f "$mk" "$mk.conf"
 fi
 exit 0
